@@ -160,6 +160,18 @@ CHECKS["C15"] = {
     ],
 }
 
+CHECKS["C16"] = {
+    "harness": "c16",
+    "level": "fault_enumeration",
+    "floor": {"quick": 300, "thorough": 1000},
+    "timeout": {"quick": 2400, "thorough": 14400},
+    "assumptions": [
+        "truncation is the only fault: the prefix is byte-identical to the valid file up to the cut",
+        "a child exceeding 20 s counts as a hang only if it reproduces in three replays",
+        "partition/segment queries are not part of the post-load battery (they index unvalidated tables even for complete files)",
+    ],
+}
+
 for _pid, _floor in (("C18", 1000), ("C19", 1000), ("C20", 1000)):
     CHECKS[_pid] = {
         "harness": _pid.lower(),
